@@ -4,6 +4,7 @@ Coq model `assemble` evaluated on the implementation's plane metadata."""
 import json
 
 import common as C
+import geo
 import structural as S
 import tess as T
 
@@ -71,7 +72,7 @@ def run(res, replay=None):
         ctx = {"input": T.inp_json(case)}
         res.count(f"{case['group']}:{case['dim']}D:{'periodic' if case['periodic'] else 'reflective'}:{'mask' if case.get('mask') is not None else 'full'}")
         if o is None or "panic" in o:
-            res.violation("panic:" + ("no-suitable-vertex" if "No suitable" in str((o or {}).get("panic")) else "other"),
+            res.violation("panic:" + geo.panic_signature(o, case),
                           f"construction panicked: {(o or {}).get('panic')}", ctx)
             continue
         routes = [("direct", o["vor"]), ("via-integrator", o["vor2"])]
